@@ -57,7 +57,7 @@ CTX = {}
 EVENTS = []
 REG = {}            # id(array) -> (key, current?)   key = (path tuple, slot) with slot -1 = environ_parent, g = environ_children[g]
 KEEP = []           # keeps every registered array alive so that ids are never reused
-TR = {"on": False, "ttns": None, "paths": None, "in_build": False}
+TR = {"on": False, "ttns": None, "ttne": None, "paths": None, "in_build": False}
 
 
 def node_paths(ttns):
@@ -100,14 +100,15 @@ def install_trace():
     o_args, o_ce, o_upd = TT.asxp_oe_args, HE._contract_expression, TT.TTNS.update_2site
 
     def bce(self, ttns, ttno):
-        if TR["on"]:
+        if TR["on"] and TR["ttne"] is None:        # the cache optimize_ttns builds; later ones (norm, expectation) are not traced
+            TR["ttne"] = self
             TR["ttns"] = ttns
             TR["paths"] = node_paths(ttns)
             _register(self.root.environ_parent, ((), -1))
         return o_bce(self, ttns, ttno)
 
     def bc(self, snode, ttns, ttno):
-        if not TR["on"] or snode.parent is None:
+        if not TR["on"] or snode.parent is None or self is not TR["ttne"]:
             return o_bc(self, snode, ttns, ttno)
         TR["in_build"] = True
         try:
@@ -125,7 +126,7 @@ def install_trace():
         return res
 
     def bp(self, snode, ichild, ttns, ttno):
-        if not TR["on"]:
+        if not TR["on"] or self is not TR["ttne"]:
             return o_bp(self, snode, ichild, ttns, ttno)
         TR["in_build"] = True
         try:
@@ -236,7 +237,7 @@ def run_case(case):
     KEEP.clear()
     CTX.update(hd=hd, sector=sector, order=basis_list)
     out["shape"] = [len(nd.children) for nd in ttns.node_list]          # preorder child counts
-    TR.update(on=True, ttns=None, paths=None, in_build=False)
+    TR.update(on=True, ttns=None, ttne=None, paths=None, in_build=False)
     try:
         es = TG.optimize_ttns(ttns, ttno, [[int(m), float(p)] for m, p in case["procedure"]])
         out["ok"] = True
